@@ -499,9 +499,97 @@ def wide_and_deep(case):
             'stats': {'wide_or_deep_programs': 1, 'activations': sess.n}}
 
 
+def embedded_environments(case):
+    """usim.py environments embedded in a native simulation - entered late, with an initial time
+    in the future, the entering abandoned (enclosing until fires, task cancelled), with
+    processes created before and after entering, failing or not: whatever happens, run() ends
+    normally or with an exception the program raised - never with an internal signal or error"""
+    import usim
+    import usim.py as usimpy
+    from usim import time, until, Scope, TaskCancelled
+    rng = random.Random('%s/%s/c03-env' % (case['seed'], case['index']))
+    initial = rng.choice([0, 0, 3, 5])
+    abandon = rng.choice([None, None, 'until', 'cancel', 'fail'])
+    abandon_at = rng.choice([0, 1, 2, 4, 6])
+    failing = rng.random() < 0.6
+    log = []
+
+    class ProcFail(Exception):
+        pass
+
+    def process(env, number, fails):
+        yield env.timeout(number + 1)
+        log.append(('process', number, env.now))
+        if fails:
+            raise ProcFail(number)
+        yield env.timeout(1)
+
+    env = usimpy.Environment(initial)
+    before = rng.randint(0, 2)
+    for number in range(before):
+        env.process(process(env, number, failing and number == 0))
+
+    async def embedded():
+        async with env:
+            for number in range(before, before + rng.randint(0, 2)):
+                env.process(process(env, number, failing and number == before))
+            await (time + 8)
+
+    async def main():
+        await (time + rng.choice([0, 1]))
+        try:
+            if abandon == 'until':
+                async with until(time + abandon_at):
+                    await embedded()
+            elif abandon == 'cancel':
+                async with Scope() as scope:
+                    task = scope.do(embedded())
+                    await (time + abandon_at)
+                    task.cancel()
+                    try:
+                        await task
+                    except TaskCancelled:
+                        pass
+            elif abandon == 'fail':
+                async with Scope() as scope:
+                    scope.do(embedded())
+                    await (time + abandon_at)
+                    raise ProcFail('body')
+            else:
+                await embedded()
+        except (ProcFail, usim.Concurrent) as err:
+            leaves = list(err.flattened().children) if isinstance(err, usim.Concurrent) else [err]
+            if not all(isinstance(leaf, ProcFail) for leaf in leaves):
+                raise
+            log.append(('failed as programmed', time.now))
+        await (time + 20)
+        log.append(('end', time.now))
+
+    sess = Session()
+    root = main()
+    root.__name__ = root.__qualname__ = 'embedded-env'
+    outcome = sess.run(root)
+    violations = [dict(v, case=dict(case)) for v in sess.violations
+                  if v['mechanism'].startswith('kernel-')]
+    if outcome[0] != 'ok':
+        violations.append({
+            'mechanism': 'internal-error:%s' % type(outcome[1]).__name__, 'case': dict(case),
+            'msg': 'environment(initial_time=%r) embedded in a native simulation (%d processes '
+                   'made before entering, entering abandoned by %s at +%r): run() ended with %r '
+                   'after %s' % (initial, before, abandon, abandon_at, outcome[1], log[-3:])})
+    try:
+        root.close()
+    except BaseException:  # noqa: B902
+        pass
+    return {'evals': 1, 'sigs': [], 'violations': violations,
+            'stats': {'embedded_environments': 1, 'activations': sess.n}}
+
+
 def run_case(case):
     if case.get('gen') == 'threads':
         return run_threads(case)
+    if case.get('plan') is None and case['index'] % 20 == 17:
+        return embedded_environments(case)
     if case.get('plan') is None and case['index'] % 40 == 27:
         return wide_and_deep(case)
     if case.get('plan') is None and case['index'] % 40 == 7:
